@@ -30,8 +30,8 @@ type Tree struct {
 	Kids   []*Tree
 }
 
-func atom(b []byte) *Tree    { return &Tree{IsAtom: true, Atom: append([]byte{}, b...)} }
-func atomS(s string) *Tree   { return &Tree{IsAtom: true, Atom: []byte(s)} }
+func atom(b []byte) *Tree                { return &Tree{IsAtom: true, Atom: append([]byte{}, b...)} }
+func atomS(s string) *Tree               { return &Tree{IsAtom: true, Atom: []byte(s)} }
 func node(k string, kids ...*Tree) *Tree { return &Tree{Kind: k, Kids: kids} }
 
 var sqlNodeType = reflect.TypeOf((*sqlparser.SQLNode)(nil)).Elem()
